@@ -38,7 +38,7 @@ CHECKS = {
          "Trusted: the reference grammar (sanity: TLC's RoundTrip invariant). Values come from a palette, not all 2^64. Derived ToTLV/FromTLV encoders of wire structures are exercised indirectly by the full-stack checks only.",
          "TLA+ reference grammar enumerated by TLC (values + mutations with verdicts) vs the real codec", "DESIGN.md section 4 C16"),
  "C09": ("model_checking",
-         "TLC proves exhaustively (one request/response round on one exchange, 2-3 retransmissions, up to 8-9 adversary deliveries, arbitrary loss, duplication and reordering, lazy or eager applications) that the MRP machine transcribed from mrp.rs / exchange.rs / session.rs / transport.rs keeps SuccessIsTrue, AtMostOnceInOrder, RetransIdentical and the transmission budget. Adversary schedules - TLC simulations of the same machine with the real budget (5 retransmissions) over two rounds, plus every schedule with up to two (thorough: three) drop / duplicate faults among the first datagrams - are replayed on two real Matter stacks (planted CASE session, two applications using Exchange::send / recv / acknowledge) under the virtual clock; TLC validates the recorded application events and wire tap against Layer P (at-most-once in order, success only if delivered, failure only as TxTimeout within the budget horizon and never when a transmission and an ack both got through, no retransmission before the back-off, at most 6 transmissions, every duplicate asking for an ack is acknowledged again, every send call returns).",
+         "TLC proves exhaustively (one request/response round on one exchange, 2-3 retransmissions, up to 8-9 adversary deliveries, arbitrary loss, duplication and reordering, lazy or eager applications, one retransmission lingering in the single TX buffer behind a slow network send while the next back-off fires) that the MRP machine transcribed from mrp.rs / exchange.rs / session.rs / transport.rs keeps SuccessIsTrue, AtMostOnceInOrder, RetransIdentical and the transmission budget. Adversary schedules - TLC simulations of the same machine with the real budget (5 retransmissions) over two rounds, plus every schedule with up to two (thorough: three) drop / duplicate faults among the first datagrams, plus slow-network-send x held-back-acknowledgement schedules - are replayed on two real Matter stacks (planted CASE session, two applications using Exchange::send / recv / acknowledge) under the virtual clock; TLC validates the recorded application events and wire tap against Layer P (at-most-once in order, success only if delivered, failure only as TxTimeout within the budget horizon and never when a transmission and an ack both got through, no retransmission before the back-off, at most 6 transmissions, every duplicate asking for an ack is acknowledged again, every send call returns).",
          "Trusted: TLC; the tap decodes datagrams with rs-matter's own PacketHdr. One exchange on one CASE session; other session kinds and concurrent exchanges are covered by C10 / C03.",
          "TLA+ model checking (TLC) + TLC-generated and enumerated fault schedules replayed on the real stacks + TLC trace validation", "DESIGN.md section 4 C09"),
  "C15": ("model_checking",
